@@ -346,9 +346,9 @@ Proof.
     assert (Ha : pw_await pw1 = pw_await pw /\ pw_nb pw1 = pw_nb pw /\ pw_alive pw1 = pw_alive pw).
     { unfold pw1. destruct (pw_curr pw) as [b|]; auto. destruct (Nat.eqb (b_k b) k); auto.
       simpl. rewrite put_await, put_nb, put_alive. auto. }
-    destruct Ha as [Ha1 [Ha2 Ha3]]. split.
-    + pw_upd E. unfold pww in HU. simpl in HU. rewrite Ha1, Ha3 in HU. Show. lia.
-    + apply Forall_upd; auto. unfold pw_ok. simpl. rewrite Ha1, Ha2. split.
+    destruct Ha as [Ha1 [Ha2 Ha3]]. rewrite Ha1. split.
+    + pw_upd E. unfold pww in HU. simpl in HU. rewrite ?Ha1, ?Ha3 in HU. lia.
+    + apply Forall_upd; auto. unfold pw_ok. simpl. rewrite ?Ha1, ?Ha2. split.
       * apply NoDup_filter; auto.
       * intros k0 Hk. apply filter_In in Hk. apply LT, Hk.
   - (* Get *)
@@ -407,7 +407,7 @@ Proof.
     apply close_pw_ok. rewrite Forall_forall in Hok. auto.
   - (* CloseWaitDone *)
     destruct (s_close s); try discriminate. destruct (s_wg s) eqn:W; try discriminate.
-    inversion Hst; subst s'. unfold wg_inv; simpl. split; auto. lia.
+    inversion Hst; subst s'. unfold wg_inv; simpl. split; auto; lia.
 Qed.
 
 Lemma wg_inv_runs : forall cfg ls s, runs cfg ls s -> wg_inv s.
@@ -424,3 +424,739 @@ Proof.
   unfold active_calls, alive_senders, awaiters.
   rewrite active_csum, <- Nat.add_assoc, live_wsum. exact H.
 Qed.
+
+(* ------------------------------------------------------------------ 4. no stuck Close without F3 *)
+Definition pw_wf (pw : pwriter) : Prop :=
+  (forall k, k < pw_nb pw -> In k (map b_k (pw_all pw))) /\
+  (forall b, pw_curr pw = Some b ->
+     In (b_k b) (pw_await pw) /\ b_k b < pw_nb pw /\ pw_open pw = true) /\
+  (pw_alive pw = false -> pw_queue pw = [] /\ pw_snd pw = None /\ pw_open pw = false).
+
+Ltac in_all := unfold pw_all in *; simpl in *;
+  repeat (progress (repeat match goal with
+  | H : context [map _ (_ ++ _)] |- _ => rewrite map_app in H
+  | H : context [In _ (_ ++ _)] |- _ => rewrite in_app_iff in H
+  | |- context [map _ (_ ++ _)] => rewrite map_app
+  | |- context [In _ (_ ++ _)] => rewrite in_app_iff
+  end; simpl in * )).
+
+Lemma pw_add_wf : forall cfg pw m pw' k sp, pw_add cfg pw m = (pw', k, sp) ->
+  pw_open pw = true -> pw_wf pw ->
+  pw_wf pw' /\ pw_nb pw <= pw_nb pw' /\ k < pw_nb pw'.
+Proof.
+  intros cfg pw m pw' k sp H Ho [W1 [W2 W3]].
+  destruct pw as [tp o nb fin snd q cur al aw]. simpl in Ho. subst o.
+  unfold pw_add, new_batch, put in H. simpl in *.
+  destruct cur as [b|]; [destruct (add_fits cfg b m)|]; simpl in H;
+    match type of H with context [if ?c then _ else _] => destruct c end;
+    inversion H; subst; clear H; unfold pw_wf; simpl.
+  all: try (destruct (W2 _ eq_refl) as [W2a [W2b _]]).
+  all: (split; [split; [|split]|]).
+  all: match goal with
+       | |- forall k : nat, _ -> _ =>
+         intros k0 Hk0;
+         try first [ apply W1 in Hk0; in_all; tauto
+               | match type of Hk0 with _ < S ?n =>
+                   assert (Hc : k0 < n \/ k0 = n) by lia end; destruct Hc as [Hc|Hc];
+                 [apply W1 in Hc|subst k0]; in_all; tauto ]
+       | |- forall b : batch, _ -> _ =>
+         intros b0 Hb0; inversion Hb0; subst; clear Hb0; simpl;
+         rewrite ?in_app_iff; simpl; try (repeat split; auto; lia)
+       | |- _ = false -> _ =>
+         intros Hal; try (destruct (W3 Hal) as [_ [_ Hf]]; discriminate)
+       | |- _ /\ _ => simpl; try lia
+       end.
+Qed.
+
+Lemma flush_wf : forall pw b, pw_wf pw -> pw_curr pw = Some b -> pw_wf (set_curr (put pw b) None).
+Proof.
+  intros pw b [W1 [W2 W3]] Hc. destruct (W2 _ Hc) as [_ [_ Ho]].
+  destruct pw as [tp o nb fin snd q cur al aw]. simpl in *. subst. unfold put; simpl.
+  unfold pw_wf; simpl. split; [|split].
+  - intros k Hk. apply W1 in Hk. in_all. tauto.
+  - discriminate.
+  - intros Hal. destruct (W3 Hal) as [_ [_ Hf]]. discriminate.
+Qed.
+
+Lemma set_await_wf : forall pw a, pw_wf pw ->
+  (forall b, pw_curr pw = Some b -> In (b_k b) a) -> pw_wf (set_await pw a).
+Proof.
+  intros pw a [W1 [W2 W3]] H. destruct pw as [tp o nb fin snd q cur al aw].
+  unfold pw_wf; simpl in *. split; [exact W1|split; [|exact W3]].
+  intros b Hb. destruct (W2 _ Hb) as [_ [Hx Hy]]. auto.
+Qed.
+
+Definition timer_pw (pw : pwriter) (k : nat) : pwriter :=
+  let pw1 := match pw_curr pw with
+             | Some b => if Nat.eqb (b_k b) k then set_curr (put pw b) None else pw
+             | None => pw
+             end in
+  set_await pw1 (filter (fun x => negb (Nat.eqb x k)) (pw_await pw1)).
+
+Lemma timer_wf : forall pw k, pw_wf pw -> pw_wf (timer_pw pw k).
+Proof.
+  intros pw k W. unfold timer_pw. destruct (pw_curr pw) as [b|] eqn:Ec.
+  - destruct (Nat.eqb (b_k b) k) eqn:Ek.
+    + apply set_await_wf; [apply flush_wf; auto|]. simpl. discriminate.
+    + apply set_await_wf; auto. intros b0 Hb0. rewrite Ec in Hb0. inversion Hb0; subst b0.
+      apply filter_In. split; [|rewrite Ek; reflexivity].
+      destruct W as [_ [W2 _]]. apply (W2 _ Ec).
+  - apply set_await_wf; auto. intros b0 Hb0. congruence.
+Qed.
+
+Lemma timer_open : forall pw k, pw_open (timer_pw pw k) = pw_open pw.
+Proof.
+  intros. unfold timer_pw. destruct (pw_curr pw) as [b|]; auto.
+  destruct (Nat.eqb (b_k b) k); simpl; auto. apply put_open.
+Qed.
+
+Lemma timer_nb : forall pw k, pw_nb (timer_pw pw k) = pw_nb pw.
+Proof.
+  intros. unfold timer_pw. destruct (pw_curr pw) as [b|]; auto.
+  destruct (Nat.eqb (b_k b) k); simpl; auto. apply put_nb.
+Qed.
+
+Lemma close_pw_wf : forall pw, pw_wf pw -> pw_wf (close_pw pw).
+Proof.
+  intros pw W. unfold close_pw. destruct (pw_open pw) eqn:Eo; auto.
+  assert (G : forall pw1, pw_wf pw1 -> pw_curr pw1 = None ->
+              pw_wf (mkPw (pw_tp pw1) false (pw_nb pw1) (pw_fin pw1) (pw_snd pw1) (pw_queue pw1)
+                          (pw_curr pw1) (pw_alive pw1) (pw_await pw1))).
+  { intros pw1 [W1 [W2 W3]] Hc. unfold pw_wf; simpl. split; [exact W1|split].
+    - intros b Hb. congruence.
+    - intros Hal. destruct (W3 Hal) as [Ha [Hb _]]. auto. }
+  destruct (pw_curr pw) as [b|] eqn:Ec.
+  - apply G; [apply flush_wf; auto|reflexivity].
+  - apply G; auto.
+Qed.
+
+Lemma close_pw_open : forall pw, pw_open (close_pw pw) = false.
+Proof. intros pw. unfold close_pw. destruct (pw_open pw) eqn:Eo; auto. Qed.
+
+Lemma close_pw_nb : forall pw, pw_nb (close_pw pw) = pw_nb pw.
+Proof.
+  intros pw. unfold close_pw. destruct (pw_open pw); auto.
+  destruct (pw_curr pw); simpl; auto. apply put_nb.
+Qed.
+
+Definition ref_ok (pws : list pwriter) (r : nat * nat) : Prop :=
+  exists pw, nth_error pws (fst r) = Some pw /\ snd r < pw_nb pw.
+Definition pws_le (a b : list pwriter) : Prop :=
+  forall p pw, nth_error a p = Some pw -> exists pw', nth_error b p = Some pw' /\ pw_nb pw <= pw_nb pw'.
+
+Lemma ref_ok_mono : forall a b r, pws_le a b -> ref_ok a r -> ref_ok b r.
+Proof.
+  intros a b r H [pw [H1 H2]]. destruct (H _ _ H1) as [pw' [H3 H4]]. exists pw'. split; auto. lia.
+Qed.
+
+Lemma pws_le_refl : forall a, pws_le a a.
+Proof. intros a p pw H. exists pw. auto. Qed.
+
+Lemma pws_le_trans : forall a b c, pws_le a b -> pws_le b c -> pws_le a c.
+Proof.
+  intros a b c H1 H2 p pw H. destruct (H1 _ _ H) as [pw1 [H3 H4]].
+  destruct (H2 _ _ H3) as [pw2 [H5 H6]]. exists pw2. split; auto. lia.
+Qed.
+
+Lemma pws_le_upd : forall l p x y, nth_error l p = Some x -> pw_nb x <= pw_nb y -> pws_le l (upd l p y).
+Proof.
+  intros l p x y H Hn q pw Hq. destruct (Nat.eq_dec p q) as [->|N].
+  - exists y. rewrite nth_error_upd_eq by (eapply nth_error_lt; eauto). split; auto. congruence.
+  - exists pw. rewrite nth_error_upd_neq by exact N. auto.
+Qed.
+
+Lemma pws_le_cons : forall x y l l', pw_nb x <= pw_nb y -> pws_le l l' -> pws_le (x :: l) (y :: l').
+Proof.
+  intros x y l l' H1 H2 [|p] pw H; simpl in *.
+  - inversion H; subst. exists y; auto.
+  - apply H2; auto.
+Qed.
+
+Lemma pws_le_app : forall l r, pws_le l (l ++ r).
+Proof.
+  intros l r p pw H. exists pw. split; auto. rewrite nth_error_app1; auto. eapply nth_error_lt; eauto.
+Qed.
+
+Lemma pws_le_map_close : forall l, pws_le l (map close_pw l).
+Proof.
+  intros l p pw H. exists (close_pw pw). split; [apply map_nth_error; auto|rewrite close_pw_nb; auto].
+Qed.
+
+Lemma pws_add_wf : forall cfg tp m pws i pws' ref sp,
+  pws_add cfg tp m i pws = Some (pws', ref, sp) -> Forall pw_wf pws ->
+  Forall pw_wf pws' /\ pws_le pws pws' /\
+  (exists pw, i <= fst ref /\ nth_error pws' (fst ref - i) = Some pw /\ snd ref < pw_nb pw).
+Proof.
+  induction pws as [|a pws IH]; simpl; intros i pws' ref sp H HF; [discriminate|].
+  inversion HF; subst.
+  destruct (pw_open a && tp_eqb (pw_tp a) tp) eqn:Eo.
+  - apply andb_true_iff in Eo. destruct Eo as [Eo _].
+    destruct (pw_add cfg a m) as [[p' k] sp'] eqn:E. inversion H; subst.
+    destruct (pw_add_wf _ _ _ _ _ _ E Eo H2) as [Q1 [Q2 Q3]]. split; [constructor; auto|split].
+    + apply pws_le_cons; auto. apply pws_le_refl.
+    + exists p'. simpl. rewrite Nat.sub_diag. simpl. auto.
+  - destruct (pws_add cfg tp m (S i) pws) as [[[r' ref'] sp']|] eqn:E; [|discriminate].
+    inversion H; subst. destruct (IH _ _ _ _ E H3) as [Q1 [Q2 [pw [Q3 [Q4 Q5]]]]].
+    split; [constructor; auto|split].
+    + apply pws_le_cons; auto.
+    + exists pw. split; [lia|split; auto].
+      replace (fst ref - i) with (S (fst ref - S i)) by lia. simpl. auto.
+Qed.
+
+Lemma new_pw_wf : forall tp, pw_wf (new_pw tp).
+Proof.
+  intros tp. unfold pw_wf; simpl. split; [intros k Hk; lia|split; [discriminate|discriminate]].
+Qed.
+
+Lemma assign_one_wf : forall cfg pws wg refs m pws' wg' refs',
+  assign_one cfg (pws, wg, refs) m = (pws', wg', refs') -> Forall pw_wf pws ->
+  Forall pw_wf pws' /\ pws_le pws pws' /\ (Forall (ref_ok pws) refs -> Forall (ref_ok pws') refs').
+Proof.
+  intros cfg pws wg refs m pws' wg' refs' H HF. unfold assign_one in H.
+  destruct (pws_add cfg (tp_of cfg m) m 0 pws) as [[[r' ref'] sp']|] eqn:E.
+  - inversion H; subst. destruct (pws_add_wf _ _ _ _ _ _ _ _ E HF) as [Q1 [Q2 [pw [Q3 [Q4 Q5]]]]].
+    split; [auto|split; [auto|]]. intros HR. apply Forall_app. split.
+    + eapply Forall_impl; [|exact HR]. intros r. apply ref_ok_mono; auto.
+    + constructor; [|constructor]. exists pw. rewrite Nat.sub_0_r in Q4. auto.
+  - destruct (pw_add cfg (new_pw (tp_of cfg m)) m) as [[p' k] sp'] eqn:E2.
+    inversion H; subst.
+    destruct (pw_add_wf _ _ _ _ _ _ E2 eq_refl (new_pw_wf _)) as [Q1 [Q2 Q3]].
+    split; [apply Forall_app; split; auto|split; [apply pws_le_app|]].
+    intros HR. apply Forall_app. split.
+    + eapply Forall_impl; [|exact HR]. intros r. apply ref_ok_mono. apply pws_le_app.
+    + constructor; [|constructor]. exists p'. simpl.
+      rewrite nth_error_app2, Nat.sub_diag by lia. simpl. auto.
+Qed.
+
+Lemma assign_fold_wf : forall cfg ms pws wg refs pws' wg' refs',
+  fold_left (assign_one cfg) ms (pws, wg, refs) = (pws', wg', refs') -> Forall pw_wf pws ->
+  Forall pw_wf pws' /\ pws_le pws pws' /\ (Forall (ref_ok pws) refs -> Forall (ref_ok pws') refs').
+Proof.
+  induction ms as [|m ms IH]; intros pws wg refs pws' wg' refs' H HF; cbn [fold_left] in H.
+  - inversion H; subst. split; [auto|split; [apply pws_le_refl|auto]].
+  - destruct (assign_one cfg (pws, wg, refs) m) as [[pws1 wg1] refs1] eqn:E.
+    destruct (assign_one_wf _ _ _ _ _ _ _ _ E HF) as [Q1 [Q2 Q3]].
+    destruct (IH _ _ _ _ _ _ H Q1) as [R1 [R2 R3]].
+    split; [auto|split; [eapply pws_le_trans; eauto|auto]].
+Qed.
+
+Definition refs_ok (pws : list pwriter) (cs : list call) : Prop :=
+  Forall (fun cl => Forall (ref_ok pws) (c_refs cl)) cs.
+
+Lemma refs_ok_mono : forall a b cs, pws_le a b -> refs_ok a cs -> refs_ok b cs.
+Proof.
+  intros a b cs H HR. unfold refs_ok in *. eapply Forall_impl; [|exact HR].
+  intros cl Hcl. eapply Forall_impl; [|exact Hcl]. intros r. apply ref_ok_mono; auto.
+Qed.
+
+Definition cl_inv (s : state) : Prop :=
+  Forall pw_wf (s_pws s) /\
+  (s_late s = false -> closed s = true -> Forall (fun pw => pw_open pw = false) (s_pws s)) /\
+  refs_ok (s_pws s) (s_calls s).
+
+Lemma cl_inv_upd : forall s p pw pw' wg j lg cp,
+  cl_inv s -> nth_error (s_pws s) p = Some pw ->
+  pw_wf pw' -> pw_open pw' = pw_open pw -> pw_nb pw <= pw_nb pw' ->
+  cl_inv (mkSt (s_close s) wg (upd (s_pws s) p pw') (s_calls s) j lg cp (s_late s)).
+Proof.
+  intros s p pw pw' wg j lg cp [I1 [I2 I3]] E W Ho Hn. unfold cl_inv; simpl. split; [|split].
+  - apply Forall_upd; auto.
+  - intros HL HC. specialize (I2 HL HC). apply Forall_upd; auto.
+    rewrite Ho. apply (Forall_nth _ _ _ _ _ I2 E).
+  - eapply refs_ok_mono; [|exact I3]. eapply pws_le_upd; eauto.
+Qed.
+
+Ltac wf_fields pw W :=
+  destruct pw as [tp o nb fin snd q cur al aw]; destruct W as [W1 [W2 W3]];
+  unfold pw_wf; simpl in *; subst.
+
+Lemma cl_inv_step : forall cfg s l s', cl_inv s -> step cfg s l = Some s' -> cl_inv s'.
+Proof.
+  intros cfg s l s' I Hst. destruct l; unfold step in Hst.
+  - (* Call *)
+    destruct I as [I1 [I2 I3]].
+    destruct (call_admissible s g msgs); [|discriminate].
+    assert (HA : forall wg cl, c_refs cl = [] -> cl_inv (add_call s wg cl)).
+    { intros wg cl Hcl. unfold cl_inv, add_call; simpl. split; [auto|split; [exact I2|]].
+      apply Forall_app. split; [exact I3|]. constructor; [rewrite Hcl; constructor|constructor]. }
+    destruct (closed s);
+      [|destruct msgs; [|destruct (validate cfg merr (m :: msgs))]];
+      inversion Hst; subst s'; apply HA; reflexivity.
+  - (* Assign *)
+    destruct I as [I1 [I2 I3]].
+    destruct (nth_error (s_calls s) c) as [cl|] eqn:E; [|discriminate].
+    destruct (c_ph cl) eqn:Eph; try discriminate.
+    unfold assign_all in Hst.
+    destruct (fold_left (assign_one cfg) (c_msgs cl) (s_pws s, s_wg s, [])) as [[pws wg] refs] eqn:EA.
+    inversion Hst; subst s'; clear Hst.
+    destruct (assign_fold_wf _ _ _ _ _ _ _ _ EA I1) as [Q1 [Q2 Q3]].
+    unfold cl_inv; simpl. split; [auto|split].
+    + intros HL HC. apply orb_false_iff in HL. destruct HL as [_ HL].
+      unfold closed in *. simpl in HC. congruence.
+    + unfold refs_ok. apply Forall_upd.
+      * apply (refs_ok_mono _ _ _ Q2 I3).
+      * simpl. apply Q3. constructor.
+  - (* Timer *)
+    destruct (nth_error (s_pws s) p) as [pw|] eqn:E; [|discriminate].
+    destruct (existsb (Nat.eqb k) (pw_await pw)) eqn:Ex; [|discriminate].
+    inversion Hst; subst s'; clear Hst. unfold with_pw_done.
+    change (cl_inv (mkSt (s_close s) (pred (s_wg s)) (upd (s_pws s) p (timer_pw pw k)) (s_calls s)
+                         (s_journal s) (s_log s) (s_compl s) (s_late s))).
+    eapply cl_inv_upd; eauto.
+    + apply timer_wf. destruct I as [I1 _]. apply (Forall_nth _ _ _ _ _ I1 E).
+    + apply timer_open.
+    + rewrite timer_nb. lia.
+  - (* Get *)
+    destruct (nth_error (s_pws s) p) as [pw|] eqn:E; [|discriminate].
+    destruct (pw_alive pw) eqn:Eal; [|discriminate].
+    destruct (pw_snd pw) eqn:Es; [discriminate|]. destruct (pw_queue pw) as [|b q0] eqn:Eq; [discriminate|].
+    inversion Hst; subst s'; clear Hst. unfold with_pw.
+    eapply cl_inv_upd; eauto.
+    destruct I as [I1 _]. pose proof (Forall_nth _ _ _ _ _ I1 E) as W. wf_fields pw W.
+    split; [|split; [exact W2|discriminate]].
+    intros k Hk. apply W1 in Hk. in_all. tauto.
+  - (* SenderExit *)
+    destruct (nth_error (s_pws s) p) as [pw|] eqn:E; [|discriminate].
+    destruct (pw_alive pw) eqn:Eal; [|discriminate].
+    destruct (pw_snd pw) eqn:Es; [discriminate|]. destruct (pw_queue pw) as [|b q0] eqn:Eq; [|discriminate].
+    destruct (pw_open pw) eqn:Eo; [discriminate|].
+    inversion Hst; subst s'; clear Hst. unfold with_pw_done.
+    eapply cl_inv_upd; eauto.
+    destruct I as [I1 _]. pose proof (Forall_nth _ _ _ _ _ I1 E) as W. wf_fields pw W.
+    split; [exact W1|split; [exact W2|auto]].
+  - (* Attempt *)
+    destruct (nth_error (s_pws s) p) as [pw|] eqn:E; [|discriminate].
+    destruct (pw_snd pw) as [[b n [| |e]]|] eqn:Es; try discriminate.
+    inversion Hst; subst s'; clear Hst.
+    eapply cl_inv_upd; eauto.
+    destruct I as [I1 _]. pose proof (Forall_nth _ _ _ _ _ I1 E) as W. wf_fields pw W.
+    split; [|split; [exact W2|]].
+    + intros k Hk. apply W1 in Hk. in_all. tauto.
+    + intros Hal. destruct (W3 Hal) as [_ [Hf _]]. discriminate.
+  - (* BackoffDone *)
+    destruct (nth_error (s_pws s) p) as [pw|] eqn:E; [|discriminate].
+    destruct (pw_snd pw) as [[b n [| |e]]|] eqn:Es; try discriminate.
+    inversion Hst; subst s'; clear Hst. unfold with_pw.
+    eapply cl_inv_upd; eauto.
+    destruct I as [I1 _]. pose proof (Forall_nth _ _ _ _ _ I1 E) as W. wf_fields pw W.
+    split; [|split; [exact W2|]].
+    + intros k Hk. apply W1 in Hk. in_all. tauto.
+    + intros Hal. destruct (W3 Hal) as [_ [Hf _]]. discriminate.
+  - (* Finish *)
+    destruct (nth_error (s_pws s) p) as [pw|] eqn:E; [|discriminate].
+    destruct (pw_snd pw) as [[b n [| |e]]|] eqn:Es; try discriminate.
+    inversion Hst; subst s'; clear Hst.
+    eapply cl_inv_upd; eauto.
+    destruct I as [I1 _]. pose proof (Forall_nth _ _ _ _ _ I1 E) as W. wf_fields pw W.
+    split; [|split; [exact W2|]].
+    + intros k Hk. apply W1 in Hk. in_all. tauto.
+    + intros Hal. destruct (W3 Hal) as [_ [Hf _]]. discriminate.
+  - (* Return *)
+    destruct (nth_error (s_calls s) c) as [cl|] eqn:E; [|discriminate].
+    destruct (c_ph cl) eqn:Eph; try discriminate.
+    assert (HR : forall r, cl_inv (ret_call s c cl r)).
+    { intros r. destruct I as [I1 [I2 I3]]. unfold cl_inv, ret_call; simpl.
+      split; [auto|split; [auto|]]. apply Forall_upd; auto. simpl.
+      apply (Forall_nth _ _ _ _ _ I3 E). }
+    destruct (async cfg); [inversion Hst; subst; apply HR|].
+    destruct (all_results (s_pws s) (c_refs cl)); [|discriminate]. inversion Hst; subst; apply HR.
+  - (* CtxDone *)
+    destruct (nth_error (s_calls s) c) as [cl|] eqn:E; [|discriminate].
+    destruct (c_ph cl) eqn:Eph; try discriminate.
+    destruct (async cfg); [discriminate|]. inversion Hst; subst s'.
+    destruct I as [I1 [I2 I3]]. unfold cl_inv, ret_call; simpl.
+    split; [auto|split; [auto|]]. apply Forall_upd; auto. simpl.
+    apply (Forall_nth _ _ _ _ _ I3 E).
+  - (* CloseMark *)
+    destruct I as [I1 [I2 I3]].
+    destruct (s_close s); try discriminate. inversion Hst; subst s'. unfold cl_inv; simpl.
+    split; [|split].
+    + apply Forall_forall. intros x Hx. apply in_map_iff in Hx. destruct Hx as [y [<- Hy]].
+      apply close_pw_wf. rewrite Forall_forall in I1. auto.
+    + intros _ _. apply Forall_forall. intros x Hx. apply in_map_iff in Hx.
+      destruct Hx as [y [<- Hy]]. apply close_pw_open.
+    + eapply refs_ok_mono; [apply pws_le_map_close|exact I3].
+  - (* CloseWaitDone *)
+    destruct I as [I1 [I2 I3]].
+    destruct (s_close s) eqn:Ec; try discriminate. destruct (s_wg s) eqn:W; try discriminate.
+    inversion Hst; subst s'. unfold cl_inv, closed in *; simpl. rewrite Ec in I2.
+    split; [auto|split; auto].
+Qed.
+
+Lemma cl_inv_runs : forall cfg ls s, runs cfg ls s -> cl_inv s.
+Proof.
+  intros cfg. apply runs_inv.
+  - unfold cl_inv, refs_ok; simpl. split; [constructor|split; [intros; constructor|constructor]].
+  - apply cl_inv_step.
+Qed.
+
+Lemma ex_or_all : forall A (f : A -> bool) l,
+  (exists p x, nth_error l p = Some x /\ f x = true) \/ Forall (fun x => f x = false) l.
+Proof.
+  induction l as [|a l IH]; [right; constructor|].
+  destruct (f a) eqn:E.
+  - left. exists 0, a. simpl. auto.
+  - destruct IH as [[p [x [H1 H2]]]|IH].
+    + left. exists (S p), x. simpl. auto.
+    + right. constructor; auto.
+Qed.
+
+Lemma find_fin : forall k (fin : list (batch * option err)),
+  In k (map b_k (map fst fin)) -> find (fun be => Nat.eqb (b_k (fst be)) k) fin <> None.
+Proof.
+  induction fin as [|a fin IH]; simpl; intros H; [contradiction|].
+  destruct (Nat.eqb (b_k (fst a)) k) eqn:E; [discriminate|].
+  destruct H as [H|H]; [apply Nat.eqb_neq in E; contradiction|auto].
+Qed.
+
+Definition quiet (pw : pwriter) : Prop := pw_await pw = [] /\ pw_alive pw = false.
+
+Lemma all_results_some : forall pws refs,
+  Forall pw_wf pws -> Forall quiet pws -> Forall (ref_ok pws) refs -> all_results pws refs <> None.
+Proof.
+  induction refs as [|r rs IH]; simpl; intros W Q R; [discriminate|].
+  inversion R as [|r0 rs0 Hr Hrs]; subst. destruct Hr as [pw [H1 H2]].
+  unfold batch_result. rewrite H1.
+  pose proof (Forall_nth _ _ _ _ _ W H1) as [W1 [W2 W3]].
+  pose proof (Forall_nth _ _ _ _ _ Q H1) as [Q1 Q2].
+  destruct (W3 Q2) as [Hq [Hs _]].
+  assert (Hc : pw_curr pw = None).
+  { destruct (pw_curr pw) eqn:Ec; auto. destruct (W2 _ eq_refl) as [Hin _].
+    rewrite Q1 in Hin. destruct Hin. }
+  apply W1 in H2. unfold pw_all in H2. rewrite Hq, Hs, Hc in H2. simpl in H2.
+  rewrite app_nil_r in H2. apply find_fin in H2.
+  destruct (find (fun be => Nat.eqb (b_k (fst be)) (snd r)) (pw_fin pw)); [|congruence]. simpl.
+  specialize (IH W Q Hrs). destruct (all_results pws rs); congruence.
+Qed.
+
+Lemma csum_0 : forall l, (forall c, In c l -> returned c = true) -> csum l = 0.
+Proof.
+  induction l as [|a l IH]; simpl; intros H; auto.
+  rewrite IH by auto. unfold acw. rewrite (H a) by auto. reflexivity.
+Qed.
+
+Lemma wsum_0 : forall l, Forall quiet l -> wsum l = 0.
+Proof.
+  induction l as [|a l IH]; simpl; intros H; auto. inversion H as [|x y [Q1 Q2] Hl]; subst.
+  rewrite IH by auto. unfold pww. rewrite Q1, Q2. reflexivity.
+Qed.
+
+Lemma C09_w_close_no_stuck_partial_proof : stmt_C09_w_close_no_stuck_partial.
+Proof.
+  unfold stmt_C09_w_close_no_stuck_partial. intros cfg ls s Hr HL HC.
+  destruct (wg_inv_runs _ _ _ Hr) as [Hwg Hok].
+  destruct (cl_inv_runs _ _ _ Hr) as [I1 [I2 I3]].
+  assert (Hcl : closed s = true) by (unfold closed; rewrite HC; reflexivity).
+  specialize (I2 HL Hcl).
+  (* (i) a live awaitBatch goroutine *)
+  destruct (ex_or_all _ (fun pw => match pw_await pw with [] => false | _ => true end) (s_pws s))
+    as [[p [pw [E Hf]]]|NoAw].
+  { destruct (pw_await pw) as [|k aw] eqn:Ea; [discriminate|].
+    exists (Timer p k). split; [reflexivity|]. unfold step. rewrite E, Ea. simpl.
+    rewrite Nat.eqb_refl. simpl. discriminate. }
+  (* (ii) a live sender *)
+  destruct (ex_or_all _ pw_alive (s_pws s)) as [[p [pw [E Hal]]]|NoAl].
+  { pose proof (Forall_nth _ _ _ _ _ I2 E) as Ho. simpl in Ho.
+    destruct (pw_snd pw) as [[b n [| |e]]|] eqn:Es.
+    - exists (Attempt p AppliedAcked). split; [reflexivity|]. unfold step. rewrite E, Es. discriminate.
+    - exists (BackoffDone p). split; [reflexivity|]. unfold step. rewrite E, Es. discriminate.
+    - exists (Finish p). split; [reflexivity|]. unfold step. rewrite E, Es. discriminate.
+    - destruct (pw_queue pw) as [|b q] eqn:Eq.
+      + exists (SenderExit p). split; [reflexivity|]. unfold step. rewrite E, Hal, Es, Eq, Ho. discriminate.
+      + exists (Get p). split; [reflexivity|]. unfold step. rewrite E, Hal, Es, Eq. discriminate. }
+  assert (HQ : Forall quiet (s_pws s)).
+  { rewrite Forall_forall in *. intros pw Hin. specialize (NoAw pw Hin). specialize (NoAl pw Hin).
+    simpl in *. split; auto. destruct (pw_await pw); [reflexivity|discriminate]. }
+  (* (iii) a call before batchMessages *)
+  destruct (ex_or_all _ (fun c => match c_ph c with CEntered => true | _ => false end) (s_calls s))
+    as [[c [cl [E Hf]]]|NoEnt].
+  { exists (Assign c). split; [reflexivity|]. unfold step. rewrite E.
+    destruct (c_ph cl); try discriminate.
+    destruct (assign_all cfg (s_pws s) (s_wg s) (c_msgs cl)) as [[pws wg] refs]. discriminate. }
+  (* (iv) a waiting call *)
+  destruct (ex_or_all _ (fun c => match c_ph c with CWaiting => true | _ => false end) (s_calls s))
+    as [[c [cl [E Hf]]]|NoWait].
+  { exists (Return c). split; [reflexivity|]. unfold step. rewrite E.
+    destruct (c_ph cl); try discriminate.
+    destruct (async cfg); [discriminate|].
+    destruct (all_results (s_pws s) (c_refs cl)) eqn:EA; [discriminate|].
+    exfalso. revert EA. apply all_results_some; auto.
+    apply (Forall_nth _ _ _ _ _ I3 E). }
+  (* (v) the counter is 0 *)
+  exists CloseWaitDone. split; [reflexivity|]. unfold step. rewrite HC.
+  assert (H0 : s_wg s = 0).
+  { rewrite Hwg, (wsum_0 _ HQ), csum_0; auto.
+    rewrite Forall_forall in *. intros c0 Hin. specialize (NoEnt c0 Hin). specialize (NoWait c0 Hin).
+    simpl in *. unfold returned. destruct (c_ph c0); try discriminate; reflexivity. }
+  rewrite H0. discriminate.
+Qed.
+
+(* ------------------------------------------------------------------ 6. after Close returned (partial) *)
+Lemma csum_ge : forall l c cl, nth_error l c = Some cl -> acw cl <= csum l.
+Proof.
+  induction l as [|a l IH]; destruct c; simpl; intros cl H; try discriminate.
+  - inversion H; subst; lia.
+  - specialize (IH _ _ H). lia.
+Qed.
+
+Lemma wsum_ge : forall l p pw, nth_error l p = Some pw -> pww pw <= wsum l.
+Proof.
+  induction l as [|a l IH]; destruct p; simpl; intros pw H; try discriminate.
+  - inversion H; subst; lia.
+  - specialize (IH _ _ H). lia.
+Qed.
+
+Definition ret_inv (s : state) : Prop := wg_inv s /\ (s_close s = ClReturned -> s_wg s = 0).
+
+Lemma ret_inv_step : forall cfg s l s', ret_inv s -> step cfg s l = Some s' -> ret_inv s'.
+Proof.
+  intros cfg s l s' [I J] Hst. split; [eapply wg_inv_step; eauto|].
+  destruct I as [Hwg _]. destruct l; unfold step in Hst.
+  - destruct (call_admissible s g msgs); [|discriminate].
+    destruct (closed s) eqn:Ecl;
+      [|unfold closed in Ecl; destruct msgs; [|destruct (validate cfg merr (m :: msgs))]];
+      inversion Hst; subst s'; simpl; auto; intros HC; rewrite HC in Ecl; discriminate.
+  - destruct (nth_error (s_calls s) c) as [cl|] eqn:E; [|discriminate].
+    destruct (c_ph cl) eqn:Eph; try discriminate.
+    destruct (assign_all cfg (s_pws s) (s_wg s) (c_msgs cl)) as [[pws wg] refs].
+    inversion Hst; subst s'; simpl. intros HC. specialize (J HC).
+    pose proof (csum_ge _ _ _ E) as G. unfold acw, returned in G. rewrite Eph in G. lia.
+  - destruct (nth_error (s_pws s) p) as [pw|]; [|discriminate].
+    destruct (existsb (Nat.eqb k) (pw_await pw)); [|discriminate].
+    inversion Hst; subst s'; simpl. intros HC. rewrite (J HC). reflexivity.
+  - destruct (nth_error (s_pws s) p) as [pw|]; [|discriminate].
+    destruct (pw_alive pw); [|discriminate]. destruct (pw_snd pw); [discriminate|].
+    destruct (pw_queue pw); [discriminate|]. inversion Hst; subst s'; simpl. auto.
+  - destruct (nth_error (s_pws s) p) as [pw|]; [|discriminate].
+    destruct (pw_alive pw); [|discriminate]. destruct (pw_snd pw); [discriminate|].
+    destruct (pw_queue pw); [|discriminate]. destruct (pw_open pw); [discriminate|].
+    inversion Hst; subst s'; simpl. intros HC. rewrite (J HC). reflexivity.
+  - destruct (nth_error (s_pws s) p) as [pw|]; [|discriminate].
+    destruct (pw_snd pw) as [[b n [| |e]]|]; try discriminate. inversion Hst; subst s'; simpl. auto.
+  - destruct (nth_error (s_pws s) p) as [pw|]; [|discriminate].
+    destruct (pw_snd pw) as [[b n [| |e]]|]; try discriminate. inversion Hst; subst s'; simpl. auto.
+  - destruct (nth_error (s_pws s) p) as [pw|]; [|discriminate].
+    destruct (pw_snd pw) as [[b n [| |e]]|]; try discriminate. inversion Hst; subst s'; simpl. auto.
+  - destruct (nth_error (s_calls s) c) as [cl|]; [|discriminate].
+    destruct (c_ph cl); try discriminate.
+    destruct (async cfg); [|destruct (all_results (s_pws s) (c_refs cl)); [|discriminate]];
+      inversion Hst; subst s'; simpl; intros HC; rewrite (J HC); reflexivity.
+  - destruct (nth_error (s_calls s) c) as [cl|]; [|discriminate].
+    destruct (c_ph cl); try discriminate. destruct (async cfg); [discriminate|].
+    inversion Hst; subst s'; simpl; intros HC; rewrite (J HC); reflexivity.
+  - destruct (s_close s); try discriminate. inversion Hst; subst s'; simpl. discriminate.
+  - destruct (s_close s); try discriminate. destruct (s_wg s) eqn:W; try discriminate.
+    inversion Hst; subst s'; simpl. auto.
+Qed.
+
+Lemma ret_inv_runs : forall cfg ls s, runs cfg ls s -> ret_inv s.
+Proof.
+  intros cfg. apply runs_inv.
+  - split; [split; simpl; auto|discriminate].
+  - apply ret_inv_step.
+Qed.
+
+(* the first two conjuncts of stmt_C09_w_close_post (they do not even need s_late = false);
+   the third one (every message of an accepted call was completed) is not proved here *)
+Lemma C09_w_close_post_partial_proof :
+  forall cfg ls s, runs cfg ls s -> s_close s = ClReturned ->
+    (forall p pw, nth_error (s_pws s) p = Some pw ->
+       pw_curr pw = None /\ pw_queue pw = [] /\ pw_snd pw = None /\ pw_alive pw = false /\ pw_await pw = []) /\
+    (forall c cl, nth_error (s_calls s) c = Some cl -> returned cl = true).
+Proof.
+  intros cfg ls s Hr HC.
+  destruct (ret_inv_runs _ _ _ Hr) as [[Hwg _] J]. specialize (J HC).
+  destruct (cl_inv_runs _ _ _ Hr) as [I1 _].
+  split.
+  - intros p pw E. pose proof (wsum_ge _ _ _ E) as G.
+    assert (Hp : pww pw = 0) by lia. unfold pww in Hp.
+    assert (Hal : pw_alive pw = false) by (destruct (pw_alive pw); [simpl in Hp; lia|reflexivity]).
+    assert (Haw : pw_await pw = []) by (destruct (pw_await pw); [reflexivity|simpl in Hp; lia]).
+    destruct (Forall_nth _ _ _ _ _ I1 E) as [W1 [W2 W3]]. destruct (W3 Hal) as [Hq [Hs _]].
+    repeat split; auto.
+    destruct (pw_curr pw) eqn:Ec; auto. destruct (W2 _ eq_refl) as [Hin _].
+    rewrite Haw in Hin. destruct Hin.
+  - intros c cl E. pose proof (csum_ge _ _ _ E) as G.
+    assert (Hp : acw cl = 0) by lia. unfold acw in Hp. destruct (returned cl); [reflexivity|discriminate].
+Qed.
+
+(* ------------------------------------------------------------------ 7. termination variant *)
+Fixpoint lsum {A} (f : A -> nat) (l : list A) : nat :=
+  match l with [] => 0 | x :: r => f x + lsum f r end.
+
+Lemma lsum_upd : forall A (f : A -> nat) l p x y,
+  nth_error l p = Some x -> lsum f (upd l p y) + f x = lsum f l + f y.
+Proof.
+  induction l; destruct p; simpl; intros x y H; try discriminate.
+  - inversion H; subst; lia.
+  - specialize (IHl _ _ y H). lia.
+Qed.
+
+Lemma lsum_app : forall A (f : A -> nat) a b, lsum f (a ++ b) = lsum f a + lsum f b.
+Proof. induction a; simpl; intros; auto. rewrite IHa; lia. Qed.
+
+(* cost of a batch not yet taken by the sender *)
+Definition bc (cfg : config) : nat := 2 * maxAttempts cfg + 3.
+Definition sc (cfg : config) (sd : sending) : nat :=
+  match sd_ph sd with
+  | PAttempt => 2 * (maxAttempts cfg - sd_att sd) + 2
+  | PBackoff => 2 * (maxAttempts cfg - sd_att sd) + 3
+  | PFinish _ => 1
+  end.
+Definition pwc (cfg : config) (pw : pwriter) : nat :=
+  (if pw_alive pw then 1 else 0) + length (pw_await pw)
+  + match pw_snd pw with Some sd => sc cfg sd | None => 0 end
+  + length (pw_queue pw) * bc cfg
+  + match pw_curr pw with Some _ => bc cfg | None => 0 end.
+Definition cc (cfg : config) (c : call) : nat :=
+  match c_ph c with
+  | CEntered => 2 + length (c_msgs c) * (bc cfg + 2)
+  | CWaiting => 1
+  | CReturned _ => 0
+  end.
+Definition mu (cfg : config) (s : state) : nat :=
+  (match s_close s with ClWaiting => 1 | _ => 0 end)
+  + lsum (cc cfg) (s_calls s) + lsum (pwc cfg) (s_pws s).
+
+Lemma filter_le : forall A (f : A -> bool) l, length (filter f l) <= length l.
+Proof. induction l; simpl; auto. destruct (f a); simpl; lia. Qed.
+
+Lemma filter_lt : forall k l, existsb (Nat.eqb k) l = true ->
+  length (filter (fun x => negb (Nat.eqb x k)) l) < length l.
+Proof.
+  induction l as [|a l IH]; simpl; intros H; [discriminate|].
+  pose proof (filter_le _ (fun x => negb (Nat.eqb x k)) l) as Hle.
+  destruct (Nat.eqb a k) eqn:E; simpl; [lia|].
+  rewrite Nat.eqb_sym, E in H. simpl in H. specialize (IH H). lia.
+Qed.
+
+Lemma timer_cost : forall cfg pw k, existsb (Nat.eqb k) (pw_await pw) = true ->
+  pwc cfg (timer_pw pw k) < pwc cfg pw.
+Proof.
+  intros cfg pw k H. destruct pw as [tp o nb fin snd q cur al aw]. simpl in H.
+  pose proof (filter_lt _ _ H) as HL.
+  unfold timer_pw, put, pwc; simpl. destruct cur as [b|]; simpl; [|lia].
+  destruct (Nat.eqb (b_k b) k); simpl; [|lia].
+  destruct o; simpl; rewrite ?app_length; simpl; lia.
+Qed.
+
+Lemma pw_add_cost : forall cfg pw m pw' k sp, pw_add cfg pw m = (pw', k, sp) ->
+  pwc cfg pw' <= pwc cfg pw + bc cfg + 1.
+Proof.
+  intros cfg pw m pw' k sp H. destruct pw as [tp o nb fin snd q cur al aw].
+  unfold pw_add, new_batch, put in H. simpl in H.
+  destruct cur as [b|]; [destruct (add_fits cfg b m)|]; simpl in H;
+    match type of H with context [if ?c then _ else _] => destruct c end;
+    destruct o; simpl in H; inversion H; subst; clear H; unfold pwc; simpl;
+    rewrite ?app_length; simpl; rewrite ?app_length; simpl; lia.
+Qed.
+
+Lemma pws_add_cost : forall cfg tp m pws i pws' ref sp,
+  pws_add cfg tp m i pws = Some (pws', ref, sp) ->
+  lsum (pwc cfg) pws' <= lsum (pwc cfg) pws + bc cfg + 1.
+Proof.
+  induction pws as [|a pws IH]; simpl; intros i pws' ref sp H; [discriminate|].
+  destruct (pw_open a && tp_eqb (pw_tp a) tp).
+  - destruct (pw_add cfg a m) as [[p' k] sp'] eqn:E. inversion H; subst.
+    apply pw_add_cost in E. simpl. lia.
+  - destruct (pws_add cfg tp m (S i) pws) as [[[r' ref'] sp']|] eqn:E; [|discriminate].
+    inversion H; subst. apply IH in E. simpl. lia.
+Qed.
+
+Lemma assign_one_cost : forall cfg pws wg refs m pws' wg' refs',
+  assign_one cfg (pws, wg, refs) m = (pws', wg', refs') ->
+  lsum (pwc cfg) pws' <= lsum (pwc cfg) pws + (bc cfg + 2).
+Proof.
+  intros cfg pws wg refs m pws' wg' refs' H. unfold assign_one in H.
+  destruct (pws_add cfg (tp_of cfg m) m 0 pws) as [[[r' ref'] sp']|] eqn:E.
+  - inversion H; subst. apply pws_add_cost in E. lia.
+  - destruct (pw_add cfg (new_pw (tp_of cfg m)) m) as [[p' k] sp'] eqn:E2.
+    inversion H; subst. apply pw_add_cost in E2.
+    assert (H1 : pwc cfg (new_pw (tp_of cfg m)) = 1) by reflexivity.
+    rewrite lsum_app. simpl. lia.
+Qed.
+
+Lemma assign_fold_cost : forall cfg ms pws wg refs pws' wg' refs',
+  fold_left (assign_one cfg) ms (pws, wg, refs) = (pws', wg', refs') ->
+  lsum (pwc cfg) pws' <= lsum (pwc cfg) pws + length ms * (bc cfg + 2).
+Proof.
+  induction ms as [|m ms IH]; intros pws wg refs pws' wg' refs' H; cbn [fold_left] in H.
+  - inversion H; subst. simpl. lia.
+  - destruct (assign_one cfg (pws, wg, refs) m) as [[pws1 wg1] refs1] eqn:E.
+    apply assign_one_cost in E. apply IH in H. simpl. lia.
+Qed.
+
+Ltac pwc_upd E :=
+  match goal with |- context [upd _ _ ?y] => pose proof (lsum_upd _ (pwc _) _ _ _ y E) as HU end.
+
+(* holds in every state, reachable or not *)
+Lemma mu_decreases : forall cfg s l s',
+  is_env l = false -> step cfg s l = Some s' -> mu cfg s' < mu cfg s.
+Proof.
+  intros cfg s l s' Henv Hst. destruct l; simpl in Henv; try discriminate; unfold step in Hst.
+  - (* Assign *)
+    destruct (nth_error (s_calls s) c) as [cl|] eqn:E; [|discriminate].
+    destruct (c_ph cl) eqn:Eph; try discriminate.
+    unfold assign_all in Hst.
+    destruct (fold_left (assign_one cfg) (c_msgs cl) (s_pws s, s_wg s, [])) as [[pws wg] refs] eqn:EA.
+    inversion Hst; subst s'; clear Hst. apply assign_fold_cost in EA.
+    pose proof (lsum_upd _ (cc cfg) _ _ _ (mkCall (c_g cl) (c_msgs cl) refs CWaiting) E) as HC.
+    unfold cc at 2 3 in HC. simpl in HC. rewrite Eph in HC.
+    unfold mu; simpl. Show. lia.
+  - (* Timer *)
+    destruct (nth_error (s_pws s) p) as [pw|] eqn:E; [|discriminate].
+    destruct (existsb (Nat.eqb k) (pw_await pw)) eqn:Ex; [|discriminate].
+    inversion Hst; subst s'; clear Hst. unfold with_pw_done, mu; simpl.
+    pose proof (timer_cost cfg _ _ Ex) as HT.
+    pose proof (lsum_upd _ (pwc cfg) _ _ _ (timer_pw pw k) E) as HU.
+    unfold timer_pw in HU at 1. lia.
+  - (* Get *)
+    destruct (nth_error (s_pws s) p) as [pw|] eqn:E; [|discriminate].
+    destruct (pw_alive pw) eqn:Eal; [|discriminate].
+    destruct (pw_snd pw) eqn:Es; [discriminate|]. destruct (pw_queue pw) as [|b q0] eqn:Eq; [discriminate|].
+    inversion Hst; subst s'; clear Hst. unfold with_pw, mu; simpl. pwc_upd E.
+    unfold pwc at 2 3 in HU. simpl in HU. rewrite Eal, Es, Eq in HU. unfold sc, bc in *. simpl in HU.
+    destruct (0 <? maxAttempts cfg); simpl in HU; lia.
+  - (* SenderExit *)
+    destruct (nth_error (s_pws s) p) as [pw|] eqn:E; [|discriminate].
+    destruct (pw_alive pw) eqn:Eal; [|discriminate].
+    destruct (pw_snd pw) eqn:Es; [discriminate|]. destruct (pw_queue pw) as [|b q0] eqn:Eq; [|discriminate].
+    destruct (pw_open pw) eqn:Eo; [discriminate|].
+    inversion Hst; subst s'; clear Hst. unfold with_pw_done, mu; simpl. pwc_upd E.
+    unfold pwc at 2 3 in HU. simpl in HU. rewrite Eal, Es, Eq in HU. simpl in HU. lia.
+  - (* Attempt *)
+    destruct (nth_error (s_pws s) p) as [pw|] eqn:E; [|discriminate].
+    destruct (pw_snd pw) as [[b n [| |e]]|] eqn:Es; try discriminate.
+    inversion Hst; subst s'; clear Hst. unfold mu; simpl. pwc_upd E.
+    unfold pwc at 2 3 in HU. simpl in HU. rewrite Es in HU. unfold sc in HU. simpl in HU.
+    unfold after_attempt in HU. destruct (r_seen r) as [e|]; simpl in HU; [|lia].
+    destruct (retriable cfg e); simpl in HU; [|lia].
+    destruct (S n <? maxAttempts cfg) eqn:El; simpl in HU; [|lia].
+    apply Nat.ltb_lt in El. lia.
+  - (* BackoffDone *)
+    destruct (nth_error (s_pws s) p) as [pw|] eqn:E; [|discriminate].
+    destruct (pw_snd pw) as [[b n [| |e]]|] eqn:Es; try discriminate.
+    inversion Hst; subst s'; clear Hst. unfold with_pw, mu; simpl. pwc_upd E.
+    unfold pwc at 2 3 in HU. simpl in HU. rewrite Es in HU. unfold sc in HU. simpl in HU. lia.
+  - (* Finish *)
+    destruct (nth_error (s_pws s) p) as [pw|] eqn:E; [|discriminate].
+    destruct (pw_snd pw) as [[b n [| |e]]|] eqn:Es; try discriminate.
+    inversion Hst; subst s'; clear Hst. unfold mu; simpl. pwc_upd E.
+    unfold pwc at 2 3 in HU. simpl in HU. rewrite Es in HU. unfold sc in HU. simpl in HU. lia.
+  - (* Return *)
+    destruct (nth_error (s_calls s) c) as [cl|] eqn:E; [|discriminate].
+    destruct (c_ph cl) eqn:Eph; try discriminate.
+    assert (HR : forall r, mu cfg (ret_call s c cl r) < mu cfg s).
+    { intros r. unfold mu, ret_call; simpl.
+      pose proof (lsum_upd _ (cc cfg) _ _ _ (mkCall (c_g cl) (c_msgs cl) (c_refs cl) (CReturned r)) E) as HC.
+      unfold cc at 2 3 in HC. simpl in HC. rewrite Eph in HC. lia. }
+    destruct (async cfg); [inversion Hst; subst; apply HR|].
+    destruct (all_results (s_pws s) (c_refs cl)); [|discriminate]. inversion Hst; subst; apply HR.
+  - (* CloseWaitDone *)
+    destruct (s_close s) eqn:Ec; try discriminate. destruct (s_wg s); try discriminate.
+    inversion Hst; subst s'. unfold mu; simpl. rewrite Ec. lia.
+Qed.
+
+Lemma C09_w_variant_proof : forall cfg ls s l s',
+  runs cfg ls s -> is_env l = false -> step cfg s l = Some s' -> mu cfg s' < mu cfg s.
+Proof. intros cfg ls s l s' _. apply mu_decreases. Qed.
